@@ -400,6 +400,18 @@ func pushTargets() []ptarget {
 			}
 			return pstore{st: st, desc: k.d.oci(named(k)), cleanup: func() { st.Close(); os.RemoveAll(dir) }}
 		}},
+		{"file.Store(named, unpack)", false, 16, func(k *kase) pstore {
+			// a named directory layer: the bytes are kept as a temporary gzip file and unpacked; the
+			// enumerated contents are never a valid archive, so every push fails - after verification
+			// when the bytes match, during it when they do not
+			dir := Scratch("c05d")
+			st, err := file.New(dir)
+			if err != nil {
+				panic(err)
+			}
+			ann := map[string]string{ocispec.AnnotationTitle: "d", file.AnnotationUnpack: "true"}
+			return pstore{st: st, desc: k.d.oci(ann), cleanup: func() { st.Close(); os.RemoveAll(dir) }}
+		}},
 		{"file.Store(unnamed, fallback)", true, 8, func(k *kase) pstore {
 			dir := Scratch("c05u")
 			st, err := file.New(dir)
@@ -498,6 +510,18 @@ func runPush(c *driver.Ctx, p ptarget, k *kase) *fail {
 	}
 	v := probe(ps.st, ps.desc)
 	lastOutcome = fmt.Sprintf("Push err=%v; %s", err, v)
+	if len(ps.desc.Annotations) > 0 {
+		// the same content asked for without its name: visibility is a matter of the digest
+		bare := ps.desc
+		bare.Annotations = nil
+		vb := probe(ps.st, bare)
+		if err != nil && !k.full() && (vb.exists || vb.fetchErr == nil) {
+			return failf(t+".Push: failed push left the content visible under its bare descriptor (no annotations)", "Push err=%v; named: %s; bare: %s", err, v, vb)
+		}
+		if vb.fetchErr == nil && vb.readErr == nil && k.d.size >= 0 && int64(len(k.st.data)) >= k.d.size && !bytes.Equal(vb.bytes, k.want()) {
+			return failf(t+": Fetch by the bare descriptor hands back bytes that are not the named content", "Push err=%v; bare: %s want %q", err, vb, clip(k.want()))
+		}
+	}
 	added := map[string][]byte{}
 	if ps.root != "" {
 		for n, b := range regularFiles(filepath.Join(ps.root, "blobs")) {
